@@ -43,6 +43,7 @@ from ..cfg import CFG
 from ..core import (AnalysisError, call_name, find_calls, is_self_attr,
                     last_attr, names_in, short, stmts_of, txt, walk)
 from .. import lib_C04 as L
+from ..normalize import expand_ref_locals
 
 ASSUMPTIONS = [
     "NOT decided: the behaviour over arbitrary interleavings (histories) of "
@@ -605,6 +606,79 @@ def _inline_body(target, call):
     return pre + body
 
 
+def expand_self_aliases(func):
+    """copy of `func` in which locals bound exactly once to an attribute
+    chain of `self` (``hparent = self.hparent``, ``events = self._events``)
+    are written out - also where the alias is the base of an item store or
+    of a method call (those do not re-bind the name)"""
+    new = _clone(func)
+    cnt = {}
+
+    def bind(t, k=1):
+        if isinstance(t, ast.Name):
+            cnt[t.id] = cnt.get(t.id, 0) + k
+        elif isinstance(t, (ast.Tuple, ast.List)):
+            for e in t.elts:
+                bind(e, k)
+        elif isinstance(t, ast.Starred):
+            bind(t.value, k)
+    for n in walk(new):
+        if isinstance(n, ast.Assign):
+            for t in n.targets:
+                bind(t)
+        elif isinstance(n, (ast.AugAssign, ast.AnnAssign, ast.For,
+                            ast.NamedExpr, ast.comprehension)):
+            bind(n.target, 2)
+        elif isinstance(n, ast.With):
+            for it_ in n.items:
+                if it_.optional_vars is not None:
+                    bind(it_.optional_vars, 2)
+        elif isinstance(n, (ast.Global, ast.Nonlocal)):
+            for nm in n.names:
+                cnt[nm] = cnt.get(nm, 0) + 2
+    for a in new.args.args + new.args.kwonlyargs:
+        cnt[a.arg] = cnt.get(a.arg, 0) + 2
+
+    def self_chain(e):
+        while isinstance(e, ast.Attribute):
+            e = e.value
+        return isinstance(e, ast.Name) and e.id == "self"
+    mapping, drop = {}, []
+    for n in walk(new):
+        if isinstance(n, ast.Assign) and len(n.targets) == 1 and isinstance(
+                n.targets[0], ast.Name) and cnt.get(
+                n.targets[0].id) == 1 and isinstance(
+                n.value, ast.Attribute) and self_chain(n.value):
+            mapping[n.targets[0].id] = n.value
+            drop.append(n)
+    if mapping:
+        class T(ast.NodeTransformer):
+            def visit_FunctionDef(self, node):
+                if node is new:
+                    self.generic_visit(node)
+                return node
+
+            visit_Lambda = visit_FunctionDef
+
+            def visit_Assign(self, node):
+                if any(node is d for d in drop):
+                    return ast.copy_location(ast.Pass(), node)
+                self.generic_visit(node)
+                return node
+
+            def visit_Name(self, node):
+                if isinstance(node.ctx, ast.Load) and node.id in mapping:
+                    return ast.copy_location(_clone(mapping[node.id]), node)
+                return node
+        new = T().visit(new)
+        ast.fix_missing_locations(new)
+    new.parent = getattr(func, "parent", None)
+    for node in ast.walk(new):
+        for child in ast.iter_child_nodes(node):
+            child.parent = node
+    return new
+
+
 def inline_helpers(cls, func, keep=KEEP_CALLS, depth=2):
     """-> (copy of `func` with `self.<method>(…)` statements replaced by the
     method bodies, names of helper calls that could not be inlined)"""
@@ -653,6 +727,9 @@ def inline_helpers(cls, func, keep=KEEP_CALLS, depth=2):
     for node in ast.walk(new):
         for child in ast.iter_child_nodes(node):
             child.parent = node
+    # local aliases of references (`hparent = self.hparent`, `events =
+    # self._events`) are written out: the ordering rules name the attributes
+    new = expand_self_aliases(expand_ref_locals(new))
     return new, opaque
 
 
@@ -1043,6 +1120,7 @@ def r42(ctx, repo):
         if rel == EVENTS or not any(n in src for n in child_names):
             continue
         for q, fn in repo.all_functions(rel):
+            fn = expand_self_aliases(expand_ref_locals(fn))
             # locals that hold one of the classes (`cls = A if c else B`)
             holders = {}
             for a in walk(fn):
